@@ -39,12 +39,16 @@ OpExplains(e) ==    \* documented panics of the operator forms
   \/ e.op = "o.mul" /\ (IF CMul(J(e.a), J(e.k)) = NoDur THEN Has(e, "panic") ELSE NoPanic(e) /\ J(e.r) = Mul(J(e.a), J(e.k)))
   \/ e.op = "o.div" /\ (IF IsZero(J(e.k)) THEN Has(e, "panic") ELSE NoPanic(e) /\ DivOk(J(e.a), J(e.k), J(e.r)))
   \/ e.op = "o.sum" /\ (IF CAdd(J(e.a), J(e.b)) = NoDur THEN Has(e, "panic") ELSE NoPanic(e) /\ J(e.r) = Add(J(e.a), J(e.b)))
+\* left fold of a sequence of durations from zero; NoDur as soon as a partial sum leaves the range
+RECURSIVE FoldSum(_, _, _)
+FoldSum(xs, i, acc0) == IF acc0 = NoDur \/ i > Len(xs) THEN acc0 ELSE FoldSum(xs, i + 1, CAdd(acc0, J(xs[i])))
+SumExplains(e) == e.op = "o.sumn" /\ (IF FoldSum(e.xs, 1, Zero) = NoDur THEN Has(e, "panic") ELSE NoPanic(e) /\ J(e.r) = FoldSum(e.xs, 1, Zero))
 IsSession(e) == e.op \in {"s.set", "s.add", "s.sub", "s.mul", "s.div", "s.neg", "s.abs"}
 NextAcc(e) == IF e.op = "s.set" THEN J(e.v)
               ELSE IF IsSession(e) /\ NoPanic(e) /\ ~IsNone(e.r) THEN J(e.r) ELSE acc
 Init == l = 1 /\ acc = Zero
 Next == /\ l <= Len(Rec)
-        /\ Report(l, Explains(Ev) \/ OpExplains(Ev))
+        /\ Report(l, Explains(Ev) \/ OpExplains(Ev) \/ SumExplains(Ev))
         /\ acc' = NextAcc(Ev)
         /\ l' = l + 1
 Spec == Init /\ [][Next]_<<l, acc>>
